@@ -226,7 +226,7 @@ func (ps *parser) fail(f string, a ...interface{}) {
 }
 
 func (ps *parser) peek() tok_t { return ps.toks[ps.p] }
-func (ps *parser) next() tok_t  { t := ps.toks[ps.p]; ps.p++; return t }
+func (ps *parser) next() tok_t { t := ps.toks[ps.p]; ps.p++; return t }
 func (ps *parser) isOp(s string) bool {
 	t := ps.peek()
 	return t.kind == "op" && t.text == s
